@@ -14,8 +14,13 @@ keys ((str, Enum) / StrEnum members, a plain str subclass, numpy.str_) are part 
 'ke') at every depth: they are supported values (immutable_param_value accepts them), so construction must succeed and
 everything above holds for them; in addition (monitor-only, the model is given the base scalar / the plain str): the
 normalised dict still answers d[key] for every key it was given, and the task is equal to - same hash, same cache_key, also
-after pickling - the task built from the plain values they are == to."""
+after pickling - the task built from the plain values they are == to.
+Copies and the type's configuration (`limits_scenario`, task types of harness/cptasks.py that DECLARE max_parallel / cache /
+mlflow_run / post_init): every task inside a copy made by pickle (every protocol, also a copy of a copy), copy.copy or
+copy.deepcopy is of the same type and still reports, through `_lt`, what its type declares - the same max_parallel, a cache
+of the same class and state, the same mlflow_run, the same post_init."""
 import collections
+import copy
 import dataclasses
 import json
 import pickle
@@ -225,6 +230,7 @@ def _alarms(spec, real, protos, full):
                 out.append(f'dependency search on the pickled copy raised {type(e).__name__}')
             for x, y in zip(inside, all_tasks_inside(u)):
                 where = 'copy' if x is t else 'nested task of the copy'
+                out += lt_diffs(x, y, f'{where} (protocol {proto})')
                 for attr in ('_results_map', 'context', 'result_meta'):
                     if not hasattr(y, attr):
                         out.append(f'{where} (protocol {proto}) has no attribute {attr}')
@@ -241,6 +247,148 @@ def _alarms(spec, real, protos, full):
             x._set_results_map(None)
             x._set_result_meta(None)
     return out
+
+
+def shape(v, depth=0):
+    """canonical description of a configuration object: class names and plain attribute values, never addresses"""
+    if isinstance(v, (str, int, float, bool, bytes, type(None))):
+        return v
+    if isinstance(v, (list, tuple)):
+        return [shape(i, depth + 1) for i in v]
+    if isinstance(v, dict):
+        return {str(k): shape(i, depth + 1) for k, i in sorted(v.items(), key=lambda kv: str(kv[0]))}
+    if depth >= 4 or not hasattr(v, '__dict__') or isinstance(v, type) or callable(v):
+        return 'a ' + type(v).__qualname__ if not isinstance(v, type) else v.__qualname__
+    return {'class': type(v).__qualname__, 'state': shape(dict(vars(v)), depth + 1)}
+
+
+def plain_state(cache):
+    return {k: v for k, v in vars(cache).items() if isinstance(v, (str, int, float, bool, type(None)))}
+
+
+def lt_diffs(x, y, where, declared=None):
+    """x: a task (original), y: the task at the same position of a copy. What the copy reports as its type's
+    configuration (`_lt`: what the scheduler, the runners and the caches consult) must be what the type declares."""
+    out = []
+    if type(y) is not type(x):
+        return [f'{where} is of type {type(y).__qualname__}, the original of type {type(x).__qualname__}']
+    want = type(x)._lt
+    try:
+        got = y._lt
+        got_mp, got_ml, got_cache, got_post = got.max_parallel, got.mlflow_run, got.cache, got.orig_post_init
+    except Exception as e:
+        return [f'{where}: reading its _lt raised {type(e).__name__}']
+    tn = type(x).__qualname__
+    if declared is not None:
+        mp, cache_cls, cache_state, ml, post = declared
+        have = plain_state(want.cache)
+        if (want.max_parallel, type(want.cache).__name__, {k: have.get(k) for k in cache_state}, want.mlflow_run,
+                want.orig_post_init is not None) != (mp, cache_cls, cache_state, ml, post):
+            out.append(f'task type {tn} does not report what its decorator declares: max_parallel={want.max_parallel}, '
+                       f'cache={type(want.cache).__name__}{plain_state(want.cache)}, mlflow_run={want.mlflow_run}')
+    if got_mp != want.max_parallel:
+        out.append(f'{where} (a {tn} task) reports max_parallel={got_mp} although its task type declares max_parallel={want.max_parallel}: '
+                   "whoever is handed the copy no longer sees the type's limit")
+    if type(got_cache) is not type(want.cache) or shape(got_cache) != shape(want.cache):
+        out.append(f'{where} (a {tn} task) reports the cache {shape(got_cache)}, its task type declares {shape(want.cache)}')
+    if got_ml != want.mlflow_run:
+        out.append(f'{where} (a {tn} task) reports mlflow_run={got_ml}, its task type declares {want.mlflow_run}')
+    if got_post != want.orig_post_init:
+        out.append(f'{where} (a {tn} task) reports another post_init than its task type')
+    return out
+
+
+# =================================================================== copies and the type's declared configuration
+
+def gen_limit_spec(rnd, depth):
+    import cptasks
+    kids = []
+    if depth > 0:
+        kids = [gen_limit_spec(rnd, depth - 1) for _ in range(rnd.choice([0, 1, 1, 2, 3]))]
+    return [rnd.choice(cptasks.NAMES), rnd.choice([0, 1, 'a', None, 2.5, True]), kids]
+
+
+def copy_ways(protos):
+    ways = [('pickle protocol %d' % p, (lambda t, p=p: pickle.loads(pickle.dumps(t, protocol=p)))) for p in protos]
+    ways.append(('pickle of a pickled copy', lambda t: pickle.loads(pickle.dumps(pickle.loads(pickle.dumps(t))))))
+    ways.append(('copy.copy', copy.copy))
+    ways.append(('copy.deepcopy', copy.deepcopy))
+    ways.append(('copy.deepcopy of a pickled copy', lambda t: copy.deepcopy(pickle.loads(pickle.dumps(t)))))
+    return ways
+
+
+def limit_alarms(spec, protos):
+    """monitors of one task graph over the declared-configuration types; list of strings"""
+    import cptasks
+    out = []
+    try:
+        t = cptasks.build(spec)
+        inside = all_tasks_inside(t)
+        h = hash(t)
+    except Exception as e:
+        return [f'building a task graph over the declared-configuration types raised {type(e).__name__}: {e}'[:200]]
+    for x in inside:
+        out += lt_diffs(x, x, 'a constructed task', cptasks.DECLARED[type(x).__qualname__])
+    for how, fn in copy_ways(protos):
+        try:
+            u = fn(t)
+            inside_u = all_tasks_inside(u)
+            same = (u == t and hash(u) == h and u.cache_key == t.cache_key)
+        except Exception as e:
+            out.append(f'{how}: copying a task (or comparing / hashing / searching the copy) raised {type(e).__name__}: {e}'[:200])
+            continue
+        if not same:
+            out.append(f'{how}: the copy is not equal to the original / has another hash or cache_key')
+        if len(inside_u) != len(inside):
+            out.append(f'{how}: the copy holds {len(inside_u)} tasks, the original {len(inside)}')
+            continue
+        for x, y in zip(inside, inside_u):
+            where = f'{how}: the copy' if x is t else f'{how}: a nested task of the copy'
+            out += lt_diffs(x, y, where, None)
+            if type(x).__qualname__ == 'Lim3Post' and getattr(y, 'derived', None) != x.derived:
+                out.append(f'{where} lost what post_init derives')
+    return out
+
+
+def limits_scenario(seed, protos, n):
+    """returns (violations, number of graphs, number of copies checked)"""
+    import cptasks
+    rnd = random.Random(seed * 977 + 15)
+    specs = [[name, 1, []] for name in cptasks.NAMES]
+    specs += [gen_limit_spec(rnd, rnd.randrange(1, 4)) for _ in range(n)]
+    viol, seen = [], set()
+    for s in specs:
+        for a in limit_alarms(s, protos):
+            key = a[:70]
+            if key in seen:
+                continue
+            seen.add(key)
+            want = a[:40]
+            small = shrink_limit_spec(s, lambda c: any(b[:40] == want for b in limit_alarms(c, protos)))
+            viol.append(dict(what=a, replay=dict(kind='limits', spec=small)))
+    return viol, len(specs), len(specs) * len(copy_ways(protos))
+
+
+def shrink_limit_spec(spec, still, budget=40):
+    cur = spec
+    steps = 0
+    changed = True
+    while changed and steps < budget:
+        changed = False
+        cands = list(cur[2]) + [[cur[0], cur[1], cur[2][:i] + cur[2][i + 1:]] for i in range(len(cur[2]))]
+        for c in cands:
+            steps += 1
+            if steps > budget:
+                break
+            try:
+                ok = still(c)
+            except Exception:
+                ok = False
+            if ok:
+                cur = c
+                changed = True
+                break
+    return cur
 
 
 # =================================================================== pickle across interpreters
@@ -416,6 +564,10 @@ def run(ctx):
                 return dict(infra_error=infra)
             return dict(evaluations=1, distinct_nontrivial=0, rule=RULE, samples=[rp], violations=v, disagreements=[],
                         distribution={}, assumptions=[], explanation='replay of one cross-interpreter pickle round trip')
+        if rp.get('kind') == 'limits':
+            return dict(evaluations=1, distinct_nontrivial=0, rule=RULE, samples=[rp],
+                        violations=[dict(what=a, replay=rp) for a in limit_alarms(rp['spec'], protos)], disagreements=[],
+                        distribution={}, assumptions=[], explanation='replay of one task graph over the declared-configuration types (copies)')
         if rp.get('kind') == 'redefine':
             v, d, infra = redefine_scenario(0)
             if infra:
@@ -492,6 +644,11 @@ def run(ctx):
         return dict(infra_error=infra)
     dist['cross_interpreter_round_trips'] += len(xs) * len(protos) * 2
     evaluations += len(xs)
+    viol += v
+    v, n_graphs, n_copies = limits_scenario(ctx['seed'], protos, 150 if ctx['tier'] == 'quick' else 1500)
+    dist['declared_configuration_graphs'] += n_graphs
+    dist['declared_configuration_copies_checked'] += n_copies
+    evaluations += n_graphs
     viol += v
     v, d, infra = redefine_scenario(ctx['seed'])
     if infra:
